@@ -1042,6 +1042,8 @@ from mlmverif.selfcheck import B, OK  # noqa: E402
 _L = 'chainables/lazy_fns.py'
 _F = 'utils/func_utils.py'
 VARIANTS = [
+    OK('made-value-through-a-local', 'chainables/lazy_fns.py',
+       "    return maybe_lazy.result_()", "    made = maybe_lazy.result_()\n    return made"),
     OK('miss-stored-through-a-named-value', 'chainables/lazy_fns.py',
        "            result = fn(x)\n            lazy_obj_cache[x] = result\n            return result", "            value = fn(x)\n            result = value\n            lazy_obj_cache[x] = result\n            return result"),
     B('none-results-not-cached', 'chainables/lazy_fns.py',
